@@ -196,7 +196,7 @@ def real_runs(ctx):
     ctx.suites_run.append(oracles.SUITE)
     ctx.rule("real runs: every optimizer × {budget only, fitness_error near the rates it reaches, early stopping (patience 1..3 × min_delta 1e-4..10)} × min/max × serial(/thread): "
              "shape, budget, rate = |1 − mean fitness| bit-exact, stop cycle = first cycle of the declarative criterion over the reported rates; "
-             "one run in three is the second run of its instance; one in six has an objective that itself runs another optimizer instance (re-entrancy)")
+             "one run in three is the second run of its instance; one in six has an objective that itself runs another optimizer instance (re-entrancy); one in three runs a verbose instance (debug=True, output captured)")
     js = []
     for name in optimizers.names():
         for i in range(3 if not ctx.thorough else 10):
@@ -212,6 +212,9 @@ def real_runs(ctx):
                 js[-1]["nested"] = True
                 js[-1]["cfg"]["max_cycles"] = min(js[-1]["cfg"]["max_cycles"], 4)
                 js[-1]["mode"] = "serial"
+            if i == 2 or (i > 2 and rng.random() < 0.3):
+                # verbose instances (`Optimizer(config, debug=True)`): printing a cycle's figures must not be part of the bookkeeping
+                js[-1]["debug"] = True
             if i == 0:
                 # the judged run is the SECOND one of its instance (same task, other seed): counters and rate histories of the first run must not show
                 js[-1]["warmup"] = {"seed": rng.randrange(1, 10 ** 6)}
